@@ -618,7 +618,9 @@ foamEqual1(int mods, Foam f1, Foam f2)
 				return false;
 			break;
 		case 'f':
-			if (foamArgv(f1)[si].sfloat != foamArgv(f2)[si].sfloat)
+			/* Same bits: -0.0 and 0.0 are different constants. */
+			if (memcmp(&foamArgv(f1)[si].sfloat,
+				   &foamArgv(f2)[si].sfloat, sizeof(SFloat)) != 0)
 				return false;
 			break;
 		case 's':
@@ -632,8 +634,8 @@ foamEqual1(int mods, Foam f1, Foam f2)
 				return false;
 			break;
 		case 'd':
-			if (*((DFloat *) foamArgv(f1)) !=
-			    *((DFloat *) foamArgv(f2)))
+			if (memcmp((DFloat *) foamArgv(f1),
+				   (DFloat *) foamArgv(f2), sizeof(DFloat)) != 0)
 				return false;
 			break;
 		default:
